@@ -57,21 +57,19 @@ Theorem c05_in_list_tokens : forall d fl n xs rest,
 Proof. exact in_list_tokens. Qed.
 Print Assumptions c05_in_list_tokens.
 
-(* literal_execute + expanding + a type with bind_expression: process_expanding re-splits the joined
-   literals on ", " - a string value containing ", " is cut in two (the database then compares with
-   a different string) *)
-Theorem c05_process_expanding_refuted : exists l r lits,
-  lits <> [] /\ process_expanding_be l r lits <> render_in_list_be l r lits /\
-  lex_str (mkLex EscNone false) (skipn (length l) (process_expanding_be l r lits))
-  = Some ([65; 41; 44; 32; 108; 111; 119; 101; 114; 40; 66], r).
-Proof. exact process_expanding_refuted. Qed.
-Print Assumptions c05_process_expanding_refuted.
-
-Theorem c05_process_expanding_guarded : forall l r lits,
-  lits <> [] -> forallb no_sep lits = true ->
+(* IN list of a type with a bind_expression, literal_execute (fix 550a51d): every rendered literal is
+   wrapped as a whole, whatever it contains - same text as literal_binds *)
+Theorem c05_process_expanding_literal : forall l r lits,
   process_expanding_be l r lits = render_in_list_be l r lits.
-Proof. exact process_expanding_guarded. Qed.
-Print Assumptions c05_process_expanding_guarded.
+Proof. exact process_expanding_literal. Qed.
+Print Assumptions c05_process_expanding_literal.
+
+(* the remaining text split (bound expanding parameters) is harmless: placeholders contain no ", " *)
+Theorem c05_process_expanding_bound_ok : forall l r phs,
+  phs <> [] -> forallb no_sep phs = true ->
+  process_expanding_bound l r phs = render_in_list_be l r phs.
+Proof. exact process_expanding_bound_ok. Qed.
+Print Assumptions c05_process_expanding_bound_ok.
 
 (* ------------------------------------------------------------------ post-compile substitution *)
 
@@ -138,22 +136,19 @@ Theorem c05_int_render : forall d fl z, render_value d fl (VInt z) = Ok (render_
 Proof. exact int_render. Qed.
 Print Assumptions c05_int_render.
 
-(* a negative literal directly after a minus operator (unary minus renders "-" + operand) starts a
-   comment that swallows the literal and the rest of the line *)
-Theorem c05_minus_then_int_refuted : exists z rest,
-  lex_minus (45 :: render_int z ++ rest) = Comment (render_int (Z.opp z) ++ rest).
-Proof. exact minus_then_int_refuted. Qed.
-Print Assumptions c05_minus_then_int_refuted.
+(* unary minus over a literal (fix 83f298d): for EVERY operand text the rendered "-" is the minus
+   operator - a blank is put in front of an operand that starts with "-" or is substituted later *)
+Theorem c05_unary_minus_operand_is_operator : forall le lit rest, lit <> [] ->
+  lex_minus (render_neg le lit ++ rest) = OpMinus (tl (render_neg le lit) ++ rest).
+Proof. exact neg_operand_is_operator. Qed.
+Print Assumptions c05_unary_minus_operand_is_operator.
 
-Theorem c05_minus_then_negative_is_comment : forall p rest,
+(* why the blank is needed: "-" directly followed by a negative literal is a comment that swallows
+   the literal and the rest of the line *)
+Theorem c05_minus_directly_before_negative_is_comment : forall p rest,
   lex_minus (45 :: render_int (Zneg p) ++ rest) = Comment (render_int (Zpos p) ++ rest).
 Proof. exact minus_then_negative. Qed.
-Print Assumptions c05_minus_then_negative_is_comment.
-
-Theorem c05_minus_then_int_guarded : forall z rest, (0 <= z)%Z ->
-  lex_minus (45 :: render_int z ++ rest) = OpMinus (render_int z ++ rest).
-Proof. exact minus_then_int_guarded. Qed.
-Print Assumptions c05_minus_then_int_guarded.
+Print Assumptions c05_minus_directly_before_negative_is_comment.
 
 (* ------------------------------------------------------------------ Numeric / Float *)
 
@@ -221,8 +216,18 @@ Example c05_ex_in_list :
   render_in_list (map (render_string SQLite (default_flags SQLite) false) [[97; 44; 32; 98]; [39]])
   = [39; 97; 44; 32; 98; 39; 44; 32; 39; 39; 39; 39].
 Proof. vm_compute. reflexivity. Qed.
-Example c05_ex_guard_process_expanding : forallb no_sep [[39; 97; 39]; [39; 44; 39]] = true.
-Proof. vm_compute. reflexivity. Qed.
+(* formerly refuted: the value 'A, B' under lower(...) *)
+Example c05_ex_process_expanding :
+  process_expanding_be s_lower_open [41] [lit_A_B] = s_lower_open ++ lit_A_B ++ [41] /\
+  forallb no_sep [[63]; [63]] = true /\
+  process_expanding_bound s_lower_open [41] [[63]; [63]]
+  = s_lower_open ++ [63; 41; 44; 32] ++ s_lower_open ++ [63; 41].
+Proof. vm_compute. repeat split; reflexivity. Qed.
+(* formerly refuted: -literal(-5) renders "- -5"; -literal(5) renders "-5" *)
+Example c05_ex_negated_negative :
+  render_neg false (render_int (-5)) = [45; 32; 45; 53] /\ render_neg false (render_int 5) = [45; 53] /\
+  render_neg true (render_int 5) = [45; 32; 53].
+Proof. vm_compute. repeat split; reflexivity. Qed.
 (* WHERE a = __[POSTCOMPILE_zq] AND b IN (__[POSTCOMPILE_x]) : an admissible template; the value of zq
    spells the token of x and stays as it is *)
 Example c05_ex_postcompile :
